@@ -27,7 +27,7 @@ const (
 )
 
 type fault struct {
-	Dom  string `json:"dom"` // ms | kms | aead | alloc
+	Dom  string `json:"dom"` // ms | kms | aead | alloc | access
 	Idx  int    `json:"idx"` // call index within the domain, relative to the start of the operation under test
 	Kind string `json:"kind"`
 }
@@ -169,15 +169,17 @@ func validKinds(c ext) []string {
 		return []string{probe.FaultErr, "delay"}
 	case "alloc":
 		return []string{"err"}
+	case "access":
+		return []string{probe.AccessRefuse, probe.AccessRelease}
 	default:
 		return []string{"err", "delay"}
 	}
 }
 
-type bases struct{ ms, kms, aead, led int }
+type bases struct{ ms, kms, aead, led, acc int }
 
 func (e *env) bases() bases {
-	return bases{e.w.MS.N(), e.w.KMS.N(), e.w.AEAD.N(), e.w.Led.Calls()}
+	return bases{e.w.MS.N(), e.w.KMS.N(), e.w.AEAD.N(), e.w.Led.Calls(), e.w.Led.Accesses()}
 }
 
 func (e *env) arm(b bases, fs []fault) {
@@ -203,6 +205,8 @@ func (e *env) arm(b bases, fs []fault) {
 			e.w.AEAD.Faults[b.aead+f.Idx] = true
 		case "alloc":
 			e.w.Led.FailAt[b.led+f.Idx] = true
+		case "access":
+			e.w.Led.AccessFaults[b.acc+f.Idx] = f.Kind
 		}
 	}
 }
@@ -215,6 +219,7 @@ func (e *env) disarm() {
 	e.w.KMS.Delays = map[int]time.Duration{}
 	e.w.AEAD.Delays = map[int]time.Duration{}
 	e.w.Led.FailAt = map[int]bool{}
+	e.w.Led.AccessFaults = map[int]string{}
 }
 
 // trace lists the external calls made since b, in program order.
@@ -231,6 +236,9 @@ func (e *env) trace(b bases) []ext {
 	}
 	for _, c := range e.w.Led.CallLog(b.led) {
 		out = append(out, ext{c.Seq, "alloc", c.Idx - b.led, c.Kind, ""})
+	}
+	for _, c := range e.w.Led.AccessLog(b.acc) {
+		out = append(out, ext{c.Seq, "access", c.Idx - b.acc, c.Kind, ""})
 	}
 	sort.Slice(out, func(i, j int) bool { return out[i].Seq < out[j].Seq })
 	return out
@@ -398,6 +406,11 @@ func execute(sc scenario, cfgName, op string, fs []fault) (res result) {
 		}
 	}
 	for _, c := range e.w.Led.CallLog(b.led) {
+		if c.Failed {
+			res.fired++
+		}
+	}
+	for _, c := range e.w.Led.AccessLog(b.acc) {
 		if c.Failed {
 			res.fired++
 		}
